@@ -18,6 +18,7 @@ var errSim = errors.New("verifsim: injected I/O error")
 // ReadSched is a sparse description of how a simulated reader delivers its
 // bytes.  Every field's zero value is the simplest behaviour.
 type ReadSched struct {
+	Seeker      int         `json:"seeker,omitempty"`      // 1: also an io.Seeker that works (like a regular *os.File); 2: Seek always fails (like a pipe)
 	ByteReader  bool        `json:"byte_reader,omitempty"` // also implements io.ByteReader
 	Chunk       int         `json:"chunk_policy"`          // 0 = as much as asked, 1 = one byte, 2 = seeded 1..7
 	ChunkSeed   uint64      `json:"chunk_seed,omitempty"`  // for policy 2
@@ -43,6 +44,9 @@ func (s *ReadSched) String() string {
 	if s.ZeroEvery > 0 {
 		zr += fmt.Sprintf(" zeroEvery=%d", s.ZeroEvery)
 	}
+	if s.Seeker > 0 {
+		zr += []string{"", " seekable", " seek-fails"}[s.Seeker]
+	}
 	return fmt.Sprintf("br=%v chunk=%d eofWithData=%v err@%d cut@%d%s", s.ByteReader, s.Chunk, s.EOFWithData, s.ErrAt, s.CutAt, zr)
 }
 
@@ -56,6 +60,14 @@ func (s *ReadSched) Hash() Hash {
 func DrawReadSched(t *Tape, L int, faults bool) *ReadSched {
 	s := &ReadSched{ErrAt: -1, CutAt: -1}
 	s.ByteReader = t.Draw(4) == 3
+	if !s.ByteReader {
+		switch t.Draw(8) {
+		case 6:
+			s.Seeker = 1
+		case 7:
+			s.Seeker = 2
+		}
+	}
 	s.Chunk = t.Draw(3)
 	if s.Chunk == 2 {
 		s.ChunkSeed = uint64(t.Draw(1 << 30))
@@ -215,9 +227,45 @@ func (r SimByteReader) ReadByte() (byte, error) {
 	}
 }
 
+// SimSeekReader additionally satisfies io.Seeker: either a working one (a regular file) or
+// one whose Seek always fails (a pipe, a socket, a terminal - still an *os.File in real life).
+type SimSeekReader struct{ *SimReader }
+
+func (r SimSeekReader) Seek(offset int64, whence int) (int64, error) {
+	simEnter()
+	defer simLeave()
+	if r.s.Seeker == 2 {
+		r.c.Event("%s.Seek(%d,%d) -> illegal seek", r.name, offset, whence)
+		r.c.C["fault.seek_refused"]++
+		return 0, errors.New("seek: illegal seek")
+	}
+	np := int64(r.pos)
+	switch whence {
+	case io.SeekStart:
+		np = offset
+	case io.SeekCurrent:
+		np += offset
+	case io.SeekEnd:
+		np = int64(r.end) + offset
+	}
+	if np < 0 {
+		return 0, errors.New("seek: negative position")
+	}
+	if np > int64(r.end) {
+		np = int64(r.end)
+	}
+	r.c.Event("%s.Seek(%d,%d) -> %d", r.name, offset, whence, np)
+	r.pos = int(np)
+	r.eofSent = false
+	return np, nil
+}
+
 func (r *SimReader) AsReader() io.Reader {
 	if r.s.ByteReader {
 		return SimByteReader{r}
+	}
+	if r.s.Seeker > 0 {
+		return SimSeekReader{r}
 	}
 	return r
 }
